@@ -5,7 +5,9 @@
      x.json      ( K st nodes ( ( key tree ) .. ) ) -> token list of to_json_rest
      x.pal       ( K st nodes )              -> palindromic single-k-mer flags
      x.etab      ( K st nodes )              -> the edge table (targets of l_edges / r_edges per node)
-     s.json_parse ( tokens )                 -> ( tree ) | ( )        parse_json, compared with serde_json's answer
+     s.json_parse ( tokens )                 -> ( tree ) | ( )        parse_json (members sorted by key), compared with
+                                                                      serde_json's answer
+     chk.serde_same ( meta A B )             -> 1   A = B (answers before / after a serde round trip)
      chk.json_wellformed ( tokens nnodes ( ( source target dir ) .. ) ) -> 1
                    parse_json accepts the IMPLEMENTATION's tokens and the tree lists nnodes nodes with ids 0..n-1
                    and exactly the given right-going links (the implementation's own r_edges)
@@ -149,6 +151,20 @@ Definition chk_json_wellformed (ts : list token) (n : nat) (links : list (nat * 
   | _ => false
   end.
 
+(* serde_json's Value keeps object members sorted by key (BTreeMap): the comparison with its answer is made on
+   trees whose members are sorted (stable insertion sort; the harness uses no duplicate keys) *)
+Fixpoint ins_member (m : list N * jtree) (l : list (list N * jtree)) : list (list N * jtree) :=
+  match l with
+  | [] => [m]
+  | x :: r => if dna_leb (fst m) (fst x) then m :: l else x :: ins_member m r
+  end.
+Fixpoint canon_tree (t : jtree) : jtree :=
+  match t with
+  | JArr l => JArr (map canon_tree l)
+  | JObj l => JObj (fold_right ins_member [] (map (fun m => (fst m, canon_tree (snd m))) l))
+  | _ => t
+  end.
+
 Definition export_ops : list (string * handler) :=
   [ ("x.gfa"%string, fun a => match a with [VN k; st; VL ns] => match vbool st, omap v_xnode ns with
         | Some s, Some g => Some (VL (map of_rec (write_gfa jtree (N.to_nat k) s g))) | _, _ => None end | _ => None end);
@@ -158,7 +174,7 @@ Definition export_ops : list (string * handler) :=
     ("x.json"%string, fun a => match a with [VN k; st; VL ns; VL rest] =>
         match vbool st, omap v_xnode ns,
               omap (fun x => match x with VL [VL key; t] => match vlistN key, v_tree t with Some k', Some t' => Some (k', t') | _, _ => None end | _ => None end) rest with
-        | Some s, Some g, Some r => Some (VL (map of_token (to_json_rest jtree (N.to_nat k) s jtree_id g r)))
+        | Some s, Some g, Some r => Some (VL (map of_token (to_json_rest jtree (N.to_nat k) s jtree_id print g r)))
         | _, _, _ => None end | _ => None end);
     ("x.pal"%string, fun a => match a with [VN k; st; VL ns] => match vbool st, omap v_xnode ns with
         | Some s, Some g => Some (VL (map (fun i => ofbool (pal_node jtree (N.to_nat k) s g i)) (seq 0 (List.length g)))) | _, _ => None end | _ => None end);
@@ -166,7 +182,7 @@ Definition export_ops : list (string * handler) :=
         | Some s, Some g => Some (VL (map (fun p : list nend * list nend => VL [VL (map of_end (fst p)); VL (map of_end (snd p))])
                                          (etab_of jtree (N.to_nat k) s g))) | _, _ => None end | _ => None end);
     ("s.json_parse"%string, fun a => match a with [VL ts] => match omap v_token ts with
-        | Some t => Some (match parse_json t with Some tr => VL [of_tree tr] | None => VL [] end) | None => None end | _ => None end);
+        | Some t => Some (match parse_json t with Some tr => VL [of_tree (canon_tree tr)] | None => VL [] end) | None => None end | _ => None end);
     ("chk.json_wellformed"%string, fun a => match a with [VL ts; VN n; VL links] =>
         match omap v_token ts,
               omap (fun x => match x with VL [VN s; VN t; d] => match x_dir d with Some d' => Some (N.to_nat s, N.to_nat t, d') | None => None end | _ => None end) links with
@@ -178,6 +194,7 @@ Definition export_ops : list (string * handler) :=
             Some (ofbool (implb (chk_tab_ok (pal_fun p) E) (chk_gfa_complete_once (pal_fun p) E lines))) | _, _, _ => None end | _ => None end);
     ("x.gfa_hyp"%string, fun a => match a with [VL pal; e] => match vlistN pal, v_etab e with
         | Some p, Some E => Some (ofbool (chk_tab_ok (pal_fun p) E)) | _, _ => None end | _ => None end);
+    ("chk.serde_same"%string, fun a => match a with [_; x; y] => Some (ofbool (val_eqb x y)) | _ => None end);
     ("x.enc_kmer"%string, fun a => match a with [VN kind; VN s] =>
         Some (of_tree (if kind =? 0 then enc_int_kmer s else enc_varint_kmer s)) | _ => None end);
     ("x.enc_exts"%string, fun a => match a with [VN v] => Some (of_tree (enc_exts v)) | _ => None end);
